@@ -4,6 +4,7 @@
   `edge_property` (any engine state whose store is empty while it has no root).
 -/
 import Nervus.Proofs.EngineCompact
+import Nervus.Proofs.StoreRoot
 namespace Nervus.Storage
 
 /-- the value of the newest run that holds the key -/
@@ -136,21 +137,10 @@ theorem lookup_map_edge_node (l : List ((Nat × Nat) × PV)) (e : Edge) (k : Nat
       simp only [beq_eq_false_iff_ne, ne_eq, reduceCtorEq, not_false_eq_true]
     simp only [List.map_cons, List.lookup_cons, this]; exact ih
 
-/-- the store and its root after a compaction that had something to compact -/
-theorem compact_store (c : Cfg) (s : Engine) (h : s.runs.isEmpty = false) :
-    (s.compact c).store = ((Engine.sinkProps (·.nprops) s.runs).map (fun p => (SKey.node p.1.1 p.1.2, p.2)) ++
-      (Engine.sinkProps (·.eprops) s.runs).map (fun p => (SKey.edge p.1.1 p.1.2, p.2))) ++ s.store ∧
-    (s.compact c).propsRoot =
-      (if ((Engine.sinkProps (·.nprops) s.runs).map (fun p => (SKey.node p.1.1 p.1.2, p.2)) ++
-        (Engine.sinkProps (·.eprops) s.runs).map (fun p => (SKey.edge p.1.1 p.1.2, p.2))).isEmpty
-       then s.propsRoot else 1) := by
-  unfold Engine.compact
-  rw [h]
-  exact ⟨rfl, rfl⟩
-
-/-- `node_property` is unchanged by a compaction of removal-free runs -/
-theorem compact_nodeProp (c : Cfg) (s : Engine) (hdel : ∀ r ∈ s.runs, r.nDel = [])
-    (hroot : s.propsRoot = 0 → s.store = []) (n k : Nat) :
+/-- `node_property` is unchanged by a compaction of removal-free runs (the source reads the root of the
+    property tree after the insert loops) -/
+theorem compact_nodeProp (c : Cfg) (hflag : c.rootAfterInserts = true) (s : Engine)
+    (hdel : ∀ r ∈ s.runs, r.nDel = []) (hroot : RootOK s) (n k : Nat) :
     (s.compact c).nodeProp n k = s.nodeProp n k := by
   cases he : s.runs.isEmpty with
   | true =>
@@ -158,35 +148,19 @@ theorem compact_nodeProp (c : Cfg) (s : Engine) (hdel : ∀ r ∈ s.runs, r.nDel
     rw [this]
   | false =>
     obtain ⟨h1, _, _, _⟩ := compact_fields c s he
-    obtain ⟨hs, hr⟩ := compact_store c s he
+    have hs := compact_store_lookup c s he (.node n k)
     unfold Engine.nodeProp
-    rw [h1, hs, hr, npropRuns_noDel n k s.runs hdel]
-    simp only [npropRuns, Store.get, List.lookup_append, lookup_map_node, lookup_map_node_edge,
+    rw [visibleStore_ok (hroot.compact c hflag), visibleStore_ok hroot, h1, npropRuns_noDel n k s.runs hdel]
+    unfold Store.get
+    rw [hs]
+    unfold sunkOf
+    simp only [npropRuns, List.lookup_append, lookup_map_node, lookup_map_node_edge,
       sinkProps_lookup, Option.or_none]
-    cases hf : firstRun (·.nprops) (n, k) s.runs with
-    | some v =>
-      have hne : ((Engine.sinkProps (·.nprops) s.runs).map (fun p => (SKey.node p.1.1 p.1.2, p.2)) ++
-          (Engine.sinkProps (·.eprops) s.runs).map (fun p => (SKey.edge p.1.1 p.1.2, p.2))).isEmpty = false := by
-        have hl := sinkProps_lookup (·.nprops) s.runs (n, k)
-        rw [hf] at hl
-        cases hq : Engine.sinkProps (·.nprops) s.runs with
-        | nil => rw [hq] at hl; cases hl
-        | cons a as => rfl
-      rw [hne]; simp
-    | none =>
-      simp only [Option.none_or]
-      by_cases h0 : s.propsRoot = 0
-      · rw [hroot h0, h0]
-        split <;> simp
-      · have hb : (s.propsRoot == 0) = false := by simpa using h0
-        rw [hb]
-        split
-        · rw [hb]
-        · rfl
+    cases firstRun (·.nprops) (n, k) s.runs <;> simp
 
 /-- `edge_property` is unchanged by a compaction of removal-free runs -/
-theorem compact_edgeProp (c : Cfg) (s : Engine) (hdel : ∀ r ∈ s.runs, r.eDel = [])
-    (hroot : s.propsRoot = 0 → s.store = []) (e : Edge) (k : Nat) :
+theorem compact_edgeProp (c : Cfg) (hflag : c.rootAfterInserts = true) (s : Engine)
+    (hdel : ∀ r ∈ s.runs, r.eDel = []) (hroot : RootOK s) (e : Edge) (k : Nat) :
     (s.compact c).edgeProp e k = s.edgeProp e k := by
   cases he : s.runs.isEmpty with
   | true =>
@@ -194,30 +168,14 @@ theorem compact_edgeProp (c : Cfg) (s : Engine) (hdel : ∀ r ∈ s.runs, r.eDel
     rw [this]
   | false =>
     obtain ⟨h1, _, _, _⟩ := compact_fields c s he
-    obtain ⟨hs, hr⟩ := compact_store c s he
+    have hs := compact_store_lookup c s he (.edge e k)
     unfold Engine.edgeProp
-    rw [h1, hs, hr, epropRuns_noDel e k s.runs hdel]
-    simp only [epropRuns, Store.get, List.lookup_append, lookup_map_edge, lookup_map_edge_node,
+    rw [visibleStore_ok (hroot.compact c hflag), visibleStore_ok hroot, h1, epropRuns_noDel e k s.runs hdel]
+    unfold Store.get
+    rw [hs]
+    unfold sunkOf
+    simp only [epropRuns, List.lookup_append, lookup_map_edge, lookup_map_edge_node,
       sinkProps_lookup, Option.none_or]
-    cases hf : firstRun (·.eprops) (e, k) s.runs with
-    | some v =>
-      have hne : ((Engine.sinkProps (·.nprops) s.runs).map (fun p => (SKey.node p.1.1 p.1.2, p.2)) ++
-          (Engine.sinkProps (·.eprops) s.runs).map (fun p => (SKey.edge p.1.1 p.1.2, p.2))).isEmpty = false := by
-        have hl := sinkProps_lookup (·.eprops) s.runs (e, k)
-        rw [hf] at hl
-        cases hq : Engine.sinkProps (·.eprops) s.runs with
-        | nil => rw [hq] at hl; cases hl
-        | cons a as => simp
-      rw [hne]; simp
-    | none =>
-      simp only [Option.none_or]
-      by_cases h0 : s.propsRoot = 0
-      · rw [hroot h0, h0]
-        split <;> simp
-      · have hb : (s.propsRoot == 0) = false := by simpa using h0
-        rw [hb]
-        split
-        · rw [hb]
-        · rfl
+    cases firstRun (·.eprops) (e, k) s.runs <;> simp
 
 end Nervus.Storage
